@@ -40,6 +40,15 @@ func init() {
 		checkDispatch(r, prog, ga)
 		checkActionTyping(r, ga, "c15")
 		checkKeywordBoundary(r, ga, "c15")
+		// (c) the actions build the prescribed nodes: selector path parts, operator constants, literal text
+		r.importing = "C07"
+		checkSelectorGrammar(r, ga, "c07")
+		r.importing = "C04"
+		checkOperatorSpellings(r, ga, "c04")
+		r.importing = "C16"
+		checkLiteralFidelity(r, ga)
+		checkDoubleNegation(r, ga)
+		r.importing = ""
 		r.Technique = "translation validation peg↔table (imported from C20) + PEG well-formedness analyses on the rule table (undefined/duplicate/unreachable rules, left recursion, nullable repetition, label scope), entry anchoring, dispatch exhaustiveness, result-type inference for action type assertions, keyword/identifier boundary via FOLLOW sets"
 		r.Explain = "Decides the structural clauses of C15: the table is the grammar (C20's comparison), the table is a well-formed PEG whose recursive-descent interpretation is defined and terminates, both entry alternatives are anchored at end of input and the entry point / invalid-UTF-8 / recover options are never set by module code, every node type of the table is dispatched by parseExpr, every single-value type assertion in an action is satisfied by the inferred dynamic types of the label it reads on error-free runs, and no keyword literal can be directly followed by an identifier character. NOT decided: that pigeon's combinator engine interprets the table as PEG, and accept/reject on concrete strings against an independent recogniser."
 		r.Assume = append(r.Assume, "pigeon's generated engine (parseSeqExpr, parseChoiceExpr, matchers) implements ordered-choice PEG semantics", "Engine P's model of pigeon's notation")
